@@ -166,7 +166,11 @@ def run(ck, ctx):
           "statement, or None); otherwise text of one statement is parsed again as part of the next", prs.loc())
     for n in ast.walk(prs.node):
         if isinstance(n, ast.Assign) and any(access_path(t) == "self.statement" for t in n.targets if isinstance(t, ast.Attribute)):
-            ok = (isinstance(n.value, ast.Constant) and n.value.value is None) or access_path(n.value) == "self.line"
+            def _allowed(v):
+                if isinstance(v, ast.IfExp):
+                    return _allowed(v.body) and _allowed(v.orelse)
+                return (isinstance(v, ast.Constant) and v.value is None) or access_path(v) == "self.line"
+            ok = _allowed(n.value)
             ck.ob("T-REBIND", f"Parser.process_statement: self.statement = {ast.unparse(n.value)}", ok,
                   "the register may only be cleared or restarted with the current line", prs.loc(n))
     # ---- results: in-order accumulation
